@@ -313,9 +313,11 @@ def shard_fn(shard, nshards, seed, tier, exe, npairs, ncopies):
             cmds += ["NAV %d 5 %s" % (side, " ".join(p))] + mc
         cmds += ["D 0", "D 1"]
         # destroy the mutated side, the other must still be intact and usable
-        cmds += ["PUT %d" % side, "D %d" % (1 - side), "S %d 0" % (1 - side), "PUT %d" % (1 - side)]
+        # when the SOURCE is the side destroyed, the caller may recycle the storage of the names it lent to it (constant-key members): the copy must not notice
+        scr = side == 0 and any(t[0] == "K" for t in a)
+        cmds += ["PUT %d" % side] + (["KSCR 1"] if scr else []) + ["D %d" % (1 - side), "S %d 0" % (1 - side)] + (["KSCR 0"] if scr else []) + ["PUT %d" % (1 - side)]
         cases.append((cid, cmds))
-        meta[cid] = ("copy", side, a, bool(mc), len(mc or []), nh)
+        meta[cid] = ("copy", side, a, bool(mc), len(mc or []), nh, int(scr))
     results, crashes = core.run_script(exe, cases, tag="c09")
     cmdmap = dict(cases)
     for cr in crashes:
@@ -357,7 +359,7 @@ def shard_fn(shard, nshards, seed, tier, exe, npairs, ncopies):
             if has_nan(va):
                 sh.count("pairs.with_nan")
         else:
-            _, side, a, mutated, nmc, nh = m
+            _, side, a, mutated, nmc, nh, scr = m
             va = toks_to_value(a)
             sh.evaluations += 8
             if nh:
@@ -396,7 +398,9 @@ def shard_fn(shard, nshards, seed, tier, exe, npairs, ncopies):
                         key, what = "mutation-leaks-to-other-side", "mutating the %s changed the %s" % (("source", "copy")[side], ("copy", "source")[side])
                     elif mut_after == mut_before:
                         sh.count("copies.mutation_was_noop")
-                survivor = lines[base + 3]
+                survivor = lines[base + 3 + scr]
+                if scr:
+                    sh.count("copies.survive_recycling_of_the_source's_constant_key_storage")
                 if not key and survivor != (a1 if side == 0 else a0):
                     key, what = "destroy-affects-other-side", "destroying one side changed the other's dump"
             if key:
